@@ -1120,6 +1120,10 @@ pub struct NameTree<T> {
 }
 impl<T: Object+DataSize> NameTree<T> {
     pub fn walk(&self, r: &impl Resolve, callback: &mut dyn FnMut(&PdfString, &T)) -> Result<(), PdfError> {
+        self.walk_inner(r, callback, &mut Vec::new())
+    }
+    // `path`: the intermediate nodes above this one, to detect a node that is its own descendant
+    fn walk_inner(&self, r: &impl Resolve, callback: &mut dyn FnMut(&PdfString, &T), path: &mut Vec<PlainRef>) -> Result<(), PdfError> {
         match self.node {
             NameTreeNode::Leaf(ref items) => {
                 for (name, val) in items {
@@ -1128,8 +1132,14 @@ impl<T: Object+DataSize> NameTree<T> {
             }
             NameTreeNode::Intermediate(ref items) => {
                 for &tree_ref in items {
+                    if path.contains(&tree_ref.get_inner()) {
+                        bail!("name tree node {:?} is its own descendant", tree_ref);
+                    }
                     let tree = r.get(tree_ref)?;
-                    tree.walk(r, callback)?;
+                    path.push(tree_ref.get_inner());
+                    let result = tree.walk_inner(r, callback, path);
+                    path.pop();
+                    result?;
                 }
             }
         }
@@ -1286,6 +1296,10 @@ impl<T: ObjectWrite> ObjectWrite for NumberTree<T> {
 }
 impl<T: Object+DataSize> NumberTree<T> {
     pub fn walk(&self, r: &impl Resolve, callback: &mut dyn FnMut(i32, &T)) -> Result<(), PdfError> {
+        self.walk_inner(r, callback, &mut Vec::new())
+    }
+    // `path`: the intermediate nodes above this one, to detect a node that is its own descendant
+    fn walk_inner(&self, r: &impl Resolve, callback: &mut dyn FnMut(i32, &T), path: &mut Vec<PlainRef>) -> Result<(), PdfError> {
         match self.node {
             NumberTreeNode::Leaf(ref items) => {
                 for &(idx, ref val) in items {
@@ -1294,8 +1308,14 @@ impl<T: Object+DataSize> NumberTree<T> {
             }
             NumberTreeNode::Intermediate(ref items) => {
                 for &tree_ref in items {
+                    if path.contains(&tree_ref.get_inner()) {
+                        bail!("number tree node {:?} is its own descendant", tree_ref);
+                    }
                     let tree = r.get(tree_ref)?;
-                    tree.walk(r, callback)?;
+                    path.push(tree_ref.get_inner());
+                    let result = tree.walk_inner(r, callback, path);
+                    path.pop();
+                    result?;
                 }
             }
         }
